@@ -237,6 +237,21 @@ Definition run_txin_roundtrip (i : txin) : string :=
        (if negb (Nat.leb (cdepth (ser_txin i)) (limit Cbor)) then "nesting-exceeds-decoder-limit"
         else if txin_has_cb i then "coinbase-script-bit" else "-").
 
+(* tx.cached_roundtrip: the sighash cache is filled (ALL|FORKID on input 0 fills all three slots) before serialising.
+   Nothing of it reaches the encodings, a clone carries it, a decoded transaction starts with an empty cache. *)
+Definition cached_side (f : fmt) (t : tx) : string :=
+  match de_tx f (ser_tx t) with
+  | Ok t2 => let sb := bytes_eqb (tx_bytes t) (tx_bytes t2) in "000" +++ bit01 (tx_eqb t2 t) +++ bit01 sb +++ bit01 sb
+  | Err => "ERR"
+  | Panic => "PANIC"
+  end.
+Definition run_cached (t : tx) : string :=
+  let before := match inputs t with [] => "000" | _ => "111" end in
+  let impl := "OK:" +++ before +++ ";1;111;" +++ cached_side Json t +++ ";" +++ cached_side Cbor t +++ ";" +++ cached_side Cbor t in
+  out3 impl "OK:*;1;111;000111;000111;000111"
+       (if exceeds_limit Json (ser_tx t) || exceeds_limit Cbor (ser_tx t) then "nesting-exceeds-decoder-limit"
+        else if tx_has_cb t then "coinbase-script-bit" else "-").
+
 Definition show_de_tx (r : outcome tx) : string :=
   match r with Ok t => "OK:" +++ show_tx t | Err => "ERR" | Panic => "PANIC" end.
 
@@ -271,47 +286,69 @@ Definition run (op : string) (args : list string) : string :=
   | "bits.json_roundtrip", [a] => match bits_arg a with Some s => run_roundtrip Json (bits_tx s) | None => "BADARG" end
   | "bits.cbor_roundtrip", [a] => match bits_arg a with Some s => run_roundtrip Cbor (bits_tx s) | None => "BADARG" end
   | "txin.cbor_roundtrip", [w; e; ix] => with_txin w e ix run_txin_roundtrip
+  | "bits.txin_cbor_roundtrip", [a] =>
+      match bits_arg a with
+      | Some s => match inputs (bits_tx s) with i :: _ => run_txin_roundtrip i | [] => "BADARG" end
+      | None => "BADARG"
+      end
+  | "tx.cached_roundtrip", [w; e] => with_tx w e run_cached
+  | "bits.cached_roundtrip", [a] => match bits_arg a with Some s => run_cached (bits_tx s) | None => "BADARG" end
+  (* the same value rebuilt through new / set_version / set_nlocktime / add_inputs / add_input / add_outputs /
+     add_output / set_input / set_output: same model *)
+  | "tx.built_json_roundtrip", [w; e] => with_tx w e (run_roundtrip Json)
+  | "tx.built_cbor_roundtrip", [w; e] => with_tx w e (run_roundtrip Cbor)
+  | "txout.json", [w; e; ix] =>
+      with_tx w e (fun t =>
+        match N_of_dec ix with
+        | Some n => if (n <? N.of_nat (length (outputs t)))%N then
+                      match nth_error (outputs t) (N.to_nat n) with
+                      | Some o => out3 ("OK:" +++ text_bytes (json_pretty 0 (ser_txout o)) +++ ";" +++ text_bytes (json_value_of (ser_txout o))) "OK:*;*" "-"
+                      | None => "BADARG"
+                      end
+                    else "BADARG"
+        | None => "BADARG"
+        end)
   | "tx.to_json", [w; e] =>
-      with_tx w e (fun t => out3 ("OK:" +++ text_bytes (json_of (ser_tx t)) +++ ";" +++ text_bytes (json_value_of (ser_tx t))) "-" "-")
-  | "tx.to_cbor", [w; e] => with_tx w e (fun t => out3 ("OK:" +++ show_bytes (cbor_of (ser_tx t))) "-" "-")
+      with_tx w e (fun t => out3 ("OK:" +++ text_bytes (json_of (ser_tx t)) +++ ";" +++ text_bytes (json_value_of (ser_tx t))) "OK:*;*" "-")
+  | "tx.to_cbor", [w; e] => with_tx w e (fun t => out3 ("OK:" +++ show_bytes (cbor_of (ser_tx t))) "OK:*" "-")
   | "txin.json", [w; e; ix] =>
-      with_txin w e ix (fun i => out3 ("OK:" +++ text_bytes (json_pretty 0 (ser_txin i)) +++ ";" +++ text_bytes (json_value_of (ser_txin i))) "-" "-")
-  | "txin.to_cbor", [w; e; ix] => with_txin w e ix (fun i => out3 ("OK:" +++ show_bytes (cbor_of (ser_txin i))) "-" "-")
-  | "tx.de_json", [a] => match tree_arg a with Some c => out3 (show_de_tx (de_tx Json c)) "-" "-" | None => "BADARG" end
-  | "tx.de_cbor", [a] => match tree_arg a with Some c => out3 (show_de_tx (de_tx Cbor c)) "-" "-" | None => "BADARG" end
+      with_txin w e ix (fun i => out3 ("OK:" +++ text_bytes (json_pretty 0 (ser_txin i)) +++ ";" +++ text_bytes (json_value_of (ser_txin i))) "OK:*;*" "-")
+  | "txin.to_cbor", [w; e; ix] => with_txin w e ix (fun i => out3 ("OK:" +++ show_bytes (cbor_of (ser_txin i))) "OK:*" "-")
+  | "tx.de_json", [a] => match tree_arg a with Some c => out3 (show_de_tx (de_tx Json c)) "ERR~OK:*" "-" | None => "BADARG" end
+  | "tx.de_cbor", [a] => match tree_arg a with Some c => out3 (show_de_tx (de_tx Cbor c)) "ERR~OK:*" "-" | None => "BADARG" end
   | "txin.de_cbor", [a] =>
       match tree_arg a with
-      | Some c => out3 (match de_txin_top Cbor c with Ok i => "OK:" +++ show_txin i | Err => "ERR" | Panic => "PANIC" end) "-" "-"
+      | Some c => out3 (match de_txin_top Cbor c with Ok i => "OK:" +++ show_txin i | Err => "ERR" | Panic => "PANIC" end) "ERR~OK:*" "-"
       | None => "BADARG"
       end
   | "tx.json_prefix", [w; e; k] =>
       with_tx w e (fun t =>
         match N_of_dec k with
-        | Some n => if (n <? N.of_nat (slength (json_of (ser_tx t))))%N then out3 "ERR" "-" "-"
-                    else out3 (show_de_tx (de_tx Json (ser_tx t))) "-" "-"
+        | Some n => if (n <? N.of_nat (slength (json_of (ser_tx t))))%N then out3 "ERR" "ERR~OK:*" "-"
+                    else out3 (show_de_tx (de_tx Json (ser_tx t))) "ERR~OK:*" "-"
         | None => "BADARG"
         end)
   | "tx.cbor_prefix", [w; e; k] =>
       with_tx w e (fun t =>
         match N_of_dec k with
-        | Some n => if (n <? N.of_nat (length (cbor_of (ser_tx t))))%N then out3 "ERR" "-" "-"
-                    else out3 (show_de_tx (de_tx Cbor (ser_tx t))) "-" "-"
+        | Some n => if (n <? N.of_nat (length (cbor_of (ser_tx t))))%N then out3 "ERR" "ERR~OK:*" "-"
+                    else out3 (show_de_tx (de_tx Cbor (ser_tx t))) "ERR~OK:*" "-"
         | None => "BADARG"
         end)
   | "tx.json_trailing", [w; e; x] =>
       with_tx w e (fun t =>
         match expand x with
-        | Some bs => if all_ws (string_of_bytes bs) then out3 (show_de_tx (de_tx Json (ser_tx t))) "-" "-"
-                     else out3 "ERR" "-" "-"
+        | Some bs => if all_ws (string_of_bytes bs) then out3 (show_de_tx (de_tx Json (ser_tx t))) "ERR~OK:*" "-"
+                     else out3 "ERR" "ERR~OK:*" "-"
         | None => "BADARG"
         end)
   | "tx.cbor_trailing", [w; e; x] =>
       with_tx w e (fun t =>
         match expand x with
-        | Some _ => out3 (show_de_tx (de_tx Cbor (ser_tx t))) "-" "-"
+        | Some _ => out3 (show_de_tx (de_tx Cbor (ser_tx t))) "ERR~OK:*" "-"
         | None => "BADARG"
         end)
-  | "tx.from_json", [a] => match expand a with Some _ => out3 "OK:total" "-" "-" | None => "BADARG" end
-  | "tx.from_cbor", [a] => match expand a with Some _ => out3 "OK:total" "-" "-" | None => "BADARG" end
+  | "tx.from_json", [a] => match expand a with Some _ => out3 "OK:total" "OK:total" "-" | None => "BADARG" end
+  | "tx.from_cbor", [a] => match expand a with Some _ => out3 "OK:total" "OK:total" "-" | None => "BADARG" end
   | _, _ => "BADOP"
   end.
